@@ -84,8 +84,8 @@ def main(ctx):
                       'observed:counter:%s:%s' % (v['name'], c['method']),
                       replay={'obs': c['obs'][:50], 'at': v['at']})
     for c in data['counters']:
-        if c['final'] != c['nproc'] * c['n']:
-            ctx.violation('final value %d after %d locked increments (%s)' % (c['final'], c['nproc'] * c['n'], c['method']),
+        if c['final'] != c['expected']:
+            ctx.violation('final value %d after %d locked increments (%s)' % (c['final'], c['expected'], c['method']),
                           'observed:counter:final:%s' % c['method'], replay=c['obs'][-5:])
     for v in data['visibility']:
         if v['child_saw'] != 17 or v['parent_saw'] != 23:
@@ -94,7 +94,7 @@ def main(ctx):
     for b in data['types']['bad']:
         ctx.violation('type sweep: ' + b, 'datasweep:' + b.split('(')[0], replay=b)
     ctx.note('type_sweep_cases', data['types']['cases'])
-    ctx.note('counter_runs', [{k: c[k] for k in ('method', 'nproc', 'n', 'final')} for c in data['counters']])
+    ctx.note('counter_runs', [{k: c[k] for k in ('method', 'nproc', 'n', 'final', 'expected')} for c in data['counters']])
     ctx.sample({'locked_increments': data['counters'][0]['obs'][1:4]})
     ctx.assumptions += ['cross-process atomicity is observed on recorded executions (lock-ordered '
                         'log), not enumerated; ctypes type coverage is a harness sweep']
